@@ -80,6 +80,9 @@ def make_case(t, layout, rng, gen, feature=None, feature_cols=()):
 def classify(case, kind, diffs):
     """known-finding key for a deviation that the mechanism explains, else None"""
     f = case.get("feature")
+    if f is None and diffs and all(w == "column columns.unique" and o is True and x is False for w, o, x in diffs):
+        # the name 'columns' collides with the key of the internal unique-statement dict
+        return "C02:column-named-columns-flagged-unique"
     if f == "two_word_action":
         if kind in ("exception", "table_count"):
             return "C02:two-word-referential-action"
@@ -219,6 +222,13 @@ def kf_cases(ctx, n):
     for i in range(n):
         which = i % 3
         cols = base_cols(3)
+        if i % 7 == 6:
+            # a column literally named 'columns' next to a multi-column table-level UNIQUE
+            cols[1]["name"] = "columns"
+            cl = {"kind": "unique", "cols": ["c0", "c2"], "name": rng.choice([None, "u_x"])}
+            t = {"schema": None, "name": "t", "prefix": "plain", "items": [("col", c) for c in cols] + [("clause", cl)]}
+            yield make_case(t, None, rng, "kf", None, [])
+            continue
         if which == 0:
             act = rng.choice(TWO_WORD)
             if rng.random() < 0.5:
